@@ -314,9 +314,9 @@ func (h *polHost) fail() error {
 	if i < len(h.fails) {
 		switch h.fails[i] {
 		case 1:
-			return &os.PathError{Op: "open", Path: "/proc/sys/net/ipv6/conf/eth0/autoconf", Err: os.ErrPermission}
+			return &os.PathError{Op: "open", Path: fmt.Sprintf("/proc/sys/net/ipv6/conf/eth0/autoconf#call%d#", i), Err: os.ErrPermission} // (the call number makes each injected failure recognisable in whatever error ends the run)
 		case 2:
-			return &os.PathError{Op: "open", Path: "/proc/sys/net/ipv6/conf/eth0/autoconf", Err: os.ErrNotExist}
+			return &os.PathError{Op: "open", Path: fmt.Sprintf("/proc/sys/net/ipv6/conf/eth0/autoconf#call%d#", i), Err: os.ErrNotExist}
 		case 3:
 			return errors.New("verif: sysctl I/O error")
 		}
@@ -1081,6 +1081,7 @@ func c11Oracle(c polCase, run polRun) error {
 	var prev *bool // value read at the current dial
 	restorePending := false
 	restoreFailedOther, restoreFailed := false, false
+	var toleratedTokens []string // what identifies each tolerated restore failure that was injected
 	disabledBy := -1
 	for _, line := range h.log {
 		_, msg, _ := strings.Cut(line, " ")
@@ -1128,6 +1129,10 @@ func c11Oracle(c polCase, run polRun) error {
 					restoreFailed = true
 					if strings.Contains(msg, "I/O error") {
 						restoreFailedOther = true
+					} else if i := strings.Index(msg, "autoconf#call"); i >= 0 {
+						if j := strings.Index(msg[i+len("autoconf#"):], "#"); j >= 0 {
+							toleratedTokens = append(toleratedTokens, msg[i:i+len("autoconf#")+j+1])
+						}
 					}
 				}
 				continue
@@ -1174,8 +1179,12 @@ func c11Oracle(c polCase, run polRun) error {
 	if restoreFailedOther && (run.Err == nil || !strings.Contains(run.Err.Error(), "sysctl I/O error")) {
 		return fail("C11/restore-error-not-reported", "a restore failed with a non-tolerated error but Dial returned %v", run.Err)
 	}
-	if !restoreFailedOther && run.Err != nil && (strings.Contains(run.Err.Error(), "clean up") || strings.Contains(run.Err.Error(), "cleanup")) {
-		return fail("C11/tolerated-restore-error-reported", "Dial reported a clean-up error although only tolerated restore failures occurred: %v", run.Err)
+	// (a tolerated restore failure is recognised in the result by the call number its error carries, not by the
+	// wording the code wraps it in)
+	for _, tok := range toleratedTokens {
+		if run.Err != nil && strings.Contains(run.Err.Error(), tok) {
+			return fail("C11/tolerated-restore-error-reported", "Dial reported a tolerated restore failure (%s): %v", tok, run.Err)
+		}
 	}
 	return nil
 }
